@@ -390,4 +390,6 @@ func runC05(e *Engine, r *Report) {
 		})
 	}
 	ruleRegisterOnce(e, r)
+	ruleSessionLookupSource(e, r)
+	borrow(e, r, "C12", "PAIR-pool")
 }
